@@ -143,6 +143,17 @@ Proof. vm_compute. split; reflexivity. Qed.
 Theorem override_collision_refuted : exists ovs names, rename_injective_on ovs (s2l "field_") names = false.
 Proof. exists [(s2l "Pet", {| o_class := Some (s2l "Owner"); o_module := None |})], [s2l "Pet"; s2l "Owner"]. vm_compute. reflexivity. Qed.
 
+(* the module component of the guard: an override may send a class into the module file of another class (the writer does not
+   check module names: known finding override_module_collision) *)
+Theorem override_module_collision_refuted : exists ovs n1 n2,
+  n1 <> n2 /\ fst (rename_class ovs (s2l "field_") n1) <> fst (rename_class ovs (s2l "field_") n2) /\
+  snd (rename_class ovs (s2l "field_") n1) = snd (rename_class ovs (s2l "field_") n2) /\
+  rename_injective_on ovs (s2l "field_") [n1; n2] = false.
+Proof.
+  exists [(s2l "Alpha", {| o_class := None; o_module := Some (s2l "beta") |})], (s2l "Alpha"), (s2l "Beta").
+  vm_compute. repeat split; try reflexivity; discriminate.
+Qed.
+
 (* ------------------------------------------------------------------------------------------------ 2b. field_prefix *)
 Theorem prefix_decompose : forall v p skip,
   python_identifier v p skip = if needs_prefix v skip then p ++ ident_core v skip else ident_core v skip.
